@@ -1,3 +1,4 @@
+import Agd.Tie.TrC04
 import Agd.Lemmas.Cache
 import Agd.Tie.C04
 /-!
@@ -1087,3 +1088,5 @@ example : (Ecs.step ⟨0, false⟩ (Ecs.runUp ⟨0, false⟩ exUp Store.empty [.
 #print axioms ecs_served_ttl_end_to_end
 
 end Agd.Cache
+#print axioms Agd.Tie.TrC04.translation_complete
+#print axioms Agd.Tie.TrC04.roundDiv_tr
